@@ -236,6 +236,28 @@ func c16(c *Ctx) {
 		}
 	}
 
+	// ... date-times before 1970 that carry no fraction of a second (the zero 'no value' date-time among them: what the library
+	// returns for an unset controller clock) against instants on either side of them
+	{
+		olds := []time.Time{{}, time.Date(1, 1, 1, 0, 0, 1, 0, time.UTC), time.Date(1582, 10, 15, 12, 0, 0, 0, time.UTC), time.Date(1900, 1, 1, 0, 0, 0, 0, time.UTC), time.Date(1969, 12, 31, 23, 59, 59, 0, time.UTC), time.Date(1969, 7, 20, 20, 17, 40, 0, time.FixedZone("X", -4*3600))}
+		for k := 0; k < 200; k++ {
+			olds = append(olds, time.Unix(-int64(r.Uint64()%62135596800), 0).UTC())
+		}
+		for _, o := range olds {
+			for _, t := range append([]time.Time{time.Unix(0, 0), time.Unix(0, 1), time.Unix(1700000000, 999_999_999), time.Date(9999, 12, 31, 23, 59, 59, 0, time.UTC)}, olds[r.Pick(len(olds))], olds[r.Pick(len(olds))]) {
+				caseNo++
+				c.Res.Eval(1)
+				want := o.Unix() < t.Unix()
+				if t.Unix() < 0 && t.Nanosecond() != 0 {
+					continue
+				}
+				if got := types.DateTime(o).Before(t); got != want {
+					c.Res.Violate("C16:datetime:before", fmt.Sprintf("DateTime(%s).Before(%s) = %v, expected %v (whole-second comparison)", o.Format(time.RFC3339), t.Format(time.RFC3339Nano), got, want), map[string]any{"datetime_unix": o.Unix(), "instant_unix": t.Unix()}, caseNo)
+				}
+			}
+		}
+	}
+
 	// ---- SetTimeProfile accepts a segment exactly when its end is not before its start
 	u, d := mkMemClient(ClientCfg{})
 	op := rm.FindOp("SetTimeProfile")
